@@ -201,17 +201,17 @@ func main() {
 		return q
 	}
 	procs := []procConf{
-		{"configured-2022", 2022, result(`"1"`), true, nq(70, 900), false},
-		{"discovered-hex-0x7e6", -1, result(`"0x7e6"`), true, nq(40, 500), false},
-		{"configured-1", 1, result(`"1"`), true, nq(25, 300), false},
-		{"discovered-number-1337", -1, result(`1337`), true, nq(25, 300), false},
-		{"configured-0", 0, result(`"1"`), true, nq(12, 100), false},
-		{"discovered-null-is-0", -1, result(`null`), true, nq(10, 100), false},
-		{"discovered-wraps-2^64+5", -1, result(`"18446744073709551621"`), true, nq(10, 100), false},
-		{"configured-2^40", 1 << 40, result(`"1"`), true, nq(12, 100), false},
-		{"discovered-decimal-string-4", -1, result(`"4"`), true, nq(8, 100), false},
-		{"race-detector-configured-5", 5, result(`"1"`), true, nq(26, 200), true},
-		{"discovered-2^40+7", -1, result(`"1099511627783"`), true, nq(8, 60), false},
+		{"configured-2022", 2022, result(`"1"`), true, nq(70, 500), false},
+		{"discovered-hex-0x7e6", -1, result(`"0x7e6"`), true, nq(40, 300), false},
+		{"configured-1", 1, result(`"1"`), true, nq(25, 150), false},
+		{"discovered-number-1337", -1, result(`1337`), true, nq(25, 150), false},
+		{"configured-0", 0, result(`"1"`), true, nq(12, 60), false},
+		{"discovered-null-is-0", -1, result(`null`), true, nq(10, 60), false},
+		{"discovered-wraps-2^64+5", -1, result(`"18446744073709551621"`), true, nq(10, 60), false},
+		{"configured-2^40", 1 << 40, result(`"1"`), true, nq(12, 60), false},
+		{"discovered-decimal-string-4", -1, result(`"4"`), true, nq(8, 40), false},
+		{"race-detector-configured-5", 5, result(`"1"`), true, nq(26, 120), true},
+		{"discovered-2^40+7", -1, result(`"1099511627783"`), true, nq(8, 40), false},
 		{"discover-fails-rpcerror", -1, proxykit.Reply{Kind: proxykit.ReplyRPCError, Code: -32601, Message: "no such method"}, false, 0, false},
 		{"discover-fails-http500", -1, proxykit.Reply{Kind: proxykit.ReplyHTTPError, Status: 500}, false, 0, false},
 		{"discover-fails-unparsable", -1, result(`"abc"`), false, 0, false},
